@@ -563,6 +563,8 @@ def _behave(kind, param, args, feed):
         return keyof(args[0])
     if kind == "div":
         return keyof(args[0]) // (param + 2)
+    if kind == "divnone":
+        return (keyof(args[0]) // (param + 2)) or None
     if kind == "neg":
         return -keyof(args[0])
     if kind == "const":
